@@ -126,6 +126,7 @@ type cliWorld struct {
 	closes     []*closeAct
 	peerCloseAt int  // peer closes after having seen this many records (-1 never before the end)
 	peerClosed bool
+	peerSawEOF bool
 	closeGate  bool
 	malformedAt int // the peer sends a malformed record as its n-th outbound record (-1 never)
 	peerOutN   int
@@ -441,6 +442,7 @@ func (w *cliWorld) peerReceiver() {
 			w.r.Ev("peer.eof", "", 0, 0, err.Error())
 			// the peer closes its end after seeing EOF (the property's assumption)
 			w.closeGate = true
+			w.peerSawEOF = true
 			return
 		}
 		w.peerSeen++
@@ -605,7 +607,9 @@ func (w *cliWorld) peerSender() {
 		rt.Block("peer:next", func() bool { return len(w.outbox) > 0 || w.closeGate })
 		if len(w.outbox) == 0 {
 			w.peerClosed = true
-			w.causes = append(w.causes, stopCause{Kind: "eof", Begin: w.seq(), End: -1})
+			// (hanging up because the client's end was seen closed is a consequence
+			// of the client's stop, not a cause of its own)
+			w.causes = append(w.causes, stopCause{Kind: "eof", Begin: w.seq(), End: -1, Consequence: w.peerSawEOF && w.peerCloseAt < 0})
 			w.pEnd.Close()
 			return
 		}
